@@ -15,9 +15,14 @@ import json, os, random, collections
 import vlib, lang, langrun, gen, c_lang, schedlib, c_sched
 from lang import *
 
-SCHEDULES_QUICK = [("every1-full", {"every": 1, "force_full": True}), ("every2", {"every": 2}), ("every7-full", {"every": 7, "force_full": True})]
+SCHEDULES_QUICK = [("every1-full", {"every": 1, "force_full": True}), ("every2", {"every": 2}), ("every7-full", {"every": 7, "force_full": True}),
+                   ("lowthreshold", {"next_gc": 2048})]
+# C05 also runs the second value representation (--features nan_boxing): a "build" key selects it
+SCHEDULES_C05_EXTRA_QUICK = [("nan_boxing:every1-full", {"every": 1, "force_full": True, "build": "nb"})]
+SCHEDULES_C05_EXTRA_THOROUGH = [("nan_boxing:every1-full", {"every": 1, "force_full": True, "build": "nb"}), ("nan_boxing:every2", {"every": 2, "build": "nb"}),
+                                ("nan_boxing:every7-full", {"every": 7, "force_full": True, "build": "nb"}), ("nan_boxing:lowthreshold", {"next_gc": 2048, "build": "nb"})]
 SCHEDULES_THOROUGH = SCHEDULES_QUICK + [("every1", {"every": 1}), ("every3-full", {"every": 3, "force_full": True}), ("every5", {"every": 5}),
-                                        ("every13", {"every": 13}), ("lowthreshold", {"next_gc": 2048})]
+                                        ("every13", {"every": 13})]
 
 
 def gc_trace(r, rid, early):
@@ -178,7 +183,11 @@ def run(pid, tier, replay=None):
     v = vlib.Verdict(pid, tier)
     rnd = random.Random(vlib.seed() * 101 + int(pid[1:]))
     binary = vlib.build_harness()
-    scheds = SCHEDULES_QUICK if tier == "quick" else SCHEDULES_THOROUGH
+    scheds = list(SCHEDULES_QUICK if tier == "quick" else SCHEDULES_THOROUGH)
+    binary_nb = None
+    if pid == "C05":
+        scheds += SCHEDULES_C05_EXTRA_QUICK if tier == "quick" else SCHEDULES_C05_EXTRA_THOROUGH
+        binary_nb = vlib.build_harness(nan_boxing=True)
     n = {"C05": 400, "C09": 120, "C20": 100}[pid] if tier == "quick" else {"C05": 5000, "C09": 4000, "C20": 1500}[pid]
     if pid == "C09":
         progs = [(f"str{i}", string_program(rnd)) for i in range(n)] + [(f"late{i}", late_name_program(rnd)) for i in range(n // 4)]
@@ -204,6 +213,8 @@ def run(pid, tier, replay=None):
     early = pid == "C20"
     mismatch_layout = 0
     for sname, sched in scheds:
+        sched = dict(sched)
+        use_binary = binary_nb if sched.pop("build", None) == "nb" else binary
         vmcases = []
         for c in cases:
             d = {"id": c["id"], "files": c["files"], "gc": sched, "max_events": 400000}
@@ -213,7 +224,7 @@ def run(pid, tier, replay=None):
             if pid == "C20":
                 d["post_collect"] = True
             vmcases.append(d)
-        res = vlib.run_batch(binary, vmcases, per_case_timeout=60)
+        res = vlib.run_batch(use_binary, vmcases, per_case_timeout=60)
         for c in cases:
             p = preds[c["id"]]
             r = res[c["id"]]
@@ -238,8 +249,10 @@ def run(pid, tier, replay=None):
     if pid == "C05":
         for sname, sched in scheds:
             fcs = fiber_cases(tier, v) if sname == scheds[0][0] else fcs
+            sched = dict(sched)
+            use_binary = binary_nb if sched.pop("build", None) == "nb" else binary
             vmcases = [{"id": cid, "files": {"main.lay": src}, "gc": sched, "classes": ["sched"], "max_events": 20000} for cid, src, b in fcs]
-            res = vlib.run_batch(binary, vmcases, per_case_timeout=40)
+            res = vlib.run_batch(use_binary, vmcases, per_case_timeout=40)
             for cid, src, b in fcs:
                 r = res[cid]
                 judged += 1
